@@ -164,12 +164,15 @@ class Case(object):
         key = (codec,) + tuple(sorted(opts.items()))
         if key not in self._enc:
             try:
+                # a fresh value object for every encoder call: what earlier calls do to an object is the
+                # subject of C04/C12, not of the per-value codec properties
+                obj = B.build(self.T, self.v, self.spec)
                 if codec == 'ber':
-                    out = ber_enc.encode(self.obj, **opts)
+                    out = ber_enc.encode(obj, **opts)
                 elif codec == 'cer':
-                    out = cer_enc.encode(self.obj)
+                    out = cer_enc.encode(obj)
                 else:
-                    out = der_enc.encode(self.obj)
+                    out = der_enc.encode(obj)
                 self._enc[key] = ('ok', out)
             except RecursionError as e:
                 self._enc[key] = ('exc', e)
